@@ -30,7 +30,15 @@ struct Built {
 }
 
 fn build(case: &Value, rng: &mut impl RngCore) -> Option<Built> {
-    let rp = if case["rp"] == "idn" { "xn--bcher-kva.example".to_string() } else { "login.example.com".to_string() };
+    let rp = match case["rp"].as_str().unwrap() {
+        "idn" => "xn--bcher-kva.example".to_string(),
+        "upper" => "Login.EXAMPLE.com".to_string(),
+        "unicode" => "B\u{dc}CHER.example".to_string(),
+        "empty" => String::new(),
+        "dot" => "example.com.".to_string(),
+        "long" => format!("{}.example.com", "a".repeat(300)),
+        _ => "login.example.com".to_string(),
+    };
     let counter = match case["ctr"].as_str().unwrap() {
         "none" => None,
         "zero" => Some(0),
